@@ -39,10 +39,14 @@ def train_scenario(ctx, i):
     m0 = m + r.normal(size=m.shape) * np.sqrt(v) * 0.7
     v0 = v * np.exp(r.uniform(-0.7, 0.7, size=v.shape))
     um, uv, uw = SWITCHES[i % 8]
-    return dict(C=C, D=D, w=w0, m=m0, v=v0, x=x, x_dtype=str(np.asarray(x).dtype), um=um, uv=uv, uw=uw, thr=gen.EPS, floor=gen.EPS, was_map=bool(r.random() < 0.15))
+    return dict(C=C, D=D, w=w0, m=m0, v=v0, x=x, x_dtype=str(np.asarray(x).dtype), um=um, uv=uv, uw=uw, thr=gen.EPS, floor=gen.EPS, was_map=bool(r.random() < 0.15),
+                sw_kind=["py", "py", "np", "int"][int(r.integers(0, 4))])
 
 
 def mk(sc, **kw):
+    # a switch is a truth value: Python bools, NumPy bools (what from_hdf5 restores), 0 / 1
+    sw = {"py": bool, "np": np.bool_, "int": int}[sc.get("sw_kind", "py")]
+    sc = dict(sc, um=sw(sc["um"]), uv=sw(sc["uv"]), uw=sw(sc["uw"]))
     if sc.get("was_map"):
         # the object was created as a MAP machine (around some prior) and re-configured for ML training afterwards, parameter by
         # parameter: `trainer` is a public parameter, what counts is its value when fit is called
@@ -158,7 +162,7 @@ def conv_values(L):
     out = []
     for j in range(1, len(L)):
         with np.errstate(all="ignore"):
-            out.append(abs((L[j - 1] - L[j]) / L[j - 1]))
+            out.append(float(abs((np.float64(L[j - 1]) - np.float64(L[j])) / np.float64(L[j - 1]))))
     return out
 
 
@@ -357,6 +361,41 @@ def oracle_stop(sc, cap, thr, use_dask=False, sizes=None):
     return None
 
 
+def oracle_isolated(sc, sizes, cap, seed):
+    """a Dask fit whose tasks run without shared memory (every task's inputs and result are pickled, as under the multiprocessing
+    or distributed schedulers) performs the same `cap` EM iterations as the in-memory fit of the same rows, and the machine it
+    returns is coherent: its own log-likelihood of the data is the one of its parameters"""
+    import dask
+    import dask.array as da
+
+    import sched
+
+    x = np.asarray(sc["x"], dtype=float)
+    ref = core.impl(lambda: params_of(mk(sc, max_fitting_steps=cap, convergence_threshold=None).fit(x)))
+    if isinstance(ref, core.ImplError) or not all(np.all(np.isfinite(ref[k])) for k in ref):
+        return None
+    xin = da.from_array(x, chunks=(tuple(sizes), x.shape[1]))
+    g = mk(sc, max_fitting_steps=cap, convergence_threshold=None)
+
+    def run():
+        with dask.config.set(scheduler=sched.OrderScheduler(seed, True)):
+            return g.fit(xin)
+
+    res = core.impl(run)
+    how = f"{cap} iterations on a Dask array (row chunks {tuple(sizes)}) under an executor without shared memory, switches um={sc['um']} uv={sc['uv']} uw={sc['uw']}"
+    if isinstance(res, core.ImplError):
+        return {"sig": "fit-raises", "what": f"{how}: {res!r}"}
+    got = params_of(g)
+    for k in ref:
+        if not core.close(got[k], ref[k], 1e-6, 1e-9 * float(np.max(np.abs(ref[k])))):
+            return {"sig": "isolated-dask-fit-is-not-the-em-iterations", "what": f"{how}: {k} {np.asarray(got[k]).tolist()} vs in-memory {np.asarray(ref[k]).tolist()}"}
+    own = core.impl(lambda: float(np.mean(np.asarray(g.log_likelihood(x)))))
+    exp = avg_ll(got, x)
+    if isinstance(own, core.ImplError) or (np.isfinite(exp) and not core.close(own, exp, 1e-9, 1e-12)):
+        return {"sig": "fitted-machine-incoherent", "what": f"{how}: the machine's average log-likelihood of the data is {own!r}, the one of its parameters {exp}"}
+    return None
+
+
 def search(ctx):
     fails = []
     for i in range(ctx.budget(32, 320)):
@@ -366,7 +405,7 @@ def search(ctx):
         ctx.case(["mono", core.tolist(sc["x"]), i % 8, sc["chunks"]], nontrivial=True)
         f = oracle_monotone(sc)
         if f:
-            f["input"] = {k: sc[k] for k in ("w", "m", "v", "x", "x_dtype", "um", "uv", "uw", "thr", "floor", "chunks", "was_map") if k in sc}
+            f["input"] = {k: sc[k] for k in ("w", "m", "v", "x", "x_dtype", "um", "uv", "uw", "thr", "floor", "chunks", "was_map", "sw_kind") if k in sc}
             f["oracle"] = "monotone"
             fails.append(f)
             break
@@ -381,6 +420,19 @@ def search(ctx):
             fails.append({"sig": "refit-differs-from-fresh-machine", "oracle": "refit", "what": f"second fit of the same GMMMachine: {len(refit[0])} iterations {refit[0]}; fresh machine from the same parameters: {crit!r} (cap {cap}, threshold {thr})",
                           "input": {**{k: scA[k] for k in ("w", "m", "v", "x", "um", "uv", "uw", "thr", "floor")}, "xB": xB, "cap": cap, "conv_thr": thr}})
             break
+    for i in range(ctx.budget(6, 40)):
+        sc = train_scenario(ctx, i)
+        sc.pop("x_dtype", None)
+        sizes = [int(c) for c in gen.random_composition(ctx.rng, len(sc["x"]))]
+        cap, seed = int(ctx.rng.integers(2, 5)), int(ctx.rng.integers(0, 10**6))
+        ctx.count("search:isolated-dask")
+        ctx.case(["iso", core.tolist(sc["x"]), sizes, cap], nontrivial=True)
+        f = oracle_isolated(sc, sizes, cap, seed)
+        if f:
+            f["input"] = {**{k: sc[k] for k in ("w", "m", "v", "x", "um", "uv", "uw", "thr", "floor", "was_map", "sw_kind") if k in sc}, "sizes": sizes, "cap": cap, "seed": seed}
+            f["oracle"] = "isolated"
+            fails.append(f)
+            break
     if ctx.tier == "thorough" or ctx.broken:
         for use_dask in (False, True):
             for sc, xin, cap, thr, full, err in stop_scenarios(ctx, ctx.budget(8, 60), use_dask):
@@ -389,7 +441,7 @@ def search(ctx):
                 ctx.count("search:stop")
                 ctx.case(["stop", core.tolist(sc["x"]), cap, thr, use_dask], nontrivial=True)
                 if f:
-                    f["input"] = {**{k: sc[k] for k in ("w", "m", "v", "x", "x_dtype", "um", "uv", "uw", "thr", "floor", "was_map") if k in sc}, "cap": cap, "conv_thr": thr, "dask": use_dask, "sizes": sizes}
+                    f["input"] = {**{k: sc[k] for k in ("w", "m", "v", "x", "x_dtype", "um", "uv", "uw", "thr", "floor", "was_map", "sw_kind") if k in sc}, "cap": cap, "conv_thr": thr, "dask": use_dask, "sizes": sizes}
                     f["oracle"] = "stop"
                     fails.append(f)
                     break
@@ -410,6 +462,8 @@ def replay(d):
         if crit != list(rec.crit):
             return {"sig": "refit-differs-from-fresh-machine", "what": f"{list(rec.crit)} vs {crit}"}
         return None
+    if d.get("oracle") == "isolated":
+        return oracle_isolated(sc, sc["sizes"], sc["cap"], sc["seed"])
     if d.get("oracle") == "stop":
         return oracle_stop(sc, sc["cap"], sc["conv_thr"], sc["dask"], sc["sizes"])
     return oracle_monotone(sc)
